@@ -2,6 +2,7 @@ package layouts
 
 import (
 	"fmt"
+	"sort"
 	"strconv"
 	"strings"
 
@@ -363,6 +364,7 @@ var dpkgStatusesNot = []string{"deinstall ok config-files", "purge ok config-fil
 func DrawRecords(t *rapid.T, format string, min, max int) []Record {
 	n := rapid.IntRange(min, max).Draw(t, "nrec")
 	used := map[string]bool{}
+	goLHS := map[string]bool{} // go.mod: left-hand sides of the replace directives drawn so far
 	var recs []Record
 	uniq := func(gen func() string) (string, bool) {
 		for try := 0; try < 8; try++ {
@@ -431,21 +433,29 @@ func DrawRecords(t *rapid.T, format string, min, max int) []Record {
 				setAttr(&r, "hashes", h)
 			}
 		case "gomod":
-			major := pickInt(t, "gomajor", 0, 0, 1, 1, 1, 2, 3, 5, 11)
-			base, ok2 := uniq(func() string { return goPath(t) })
-			ok = ok2
-			r.Name = base
-			switch {
-			case strings.HasPrefix(base, "gopkg.in/"):
-				r.Name = base + ".v" + strconv.Itoa(major)
-				r.Version = goVersion(t, major)
-			case major >= 2 && coin(t, "incompat", 4):
-				r.Version = "v" + strconv.Itoa(major) + "." + num(t, "imin", 9) + "." + num(t, "ipat", 9) + "+incompatible"
-			case major >= 2:
-				r.Name = base + "/v" + strconv.Itoa(major)
-				r.Version = goVersion(t, major)
-			default:
-				r.Version = goVersion(t, major)
+			if len(recs) > 0 && coin(t, "samename", 6) {
+				// the same module path required at another version (the go command keeps the
+				// highest one; hand-edited and merged files carry both)
+				src := recs[rapid.IntRange(0, len(recs)-1).Draw(t, "dupof")]
+				r.Name = src.Name
+				r.Version = goVersionLike(t, src.Version)
+			} else {
+				major := pickInt(t, "gomajor", 0, 0, 1, 1, 1, 2, 3, 5, 11)
+				base, ok2 := uniq(func() string { return goPath(t) })
+				ok = ok2
+				r.Name = base
+				switch {
+				case strings.HasPrefix(base, "gopkg.in/"):
+					r.Name = base + ".v" + strconv.Itoa(major)
+					r.Version = goVersion(t, major)
+				case major >= 2 && coin(t, "incompat", 4):
+					r.Version = "v" + strconv.Itoa(major) + "." + num(t, "imin", 9) + "." + num(t, "ipat", 9) + "+incompatible"
+				case major >= 2:
+					r.Name = base + "/v" + strconv.Itoa(major)
+					r.Version = goVersion(t, major)
+				default:
+					r.Version = goVersion(t, major)
+				}
 			}
 			if coin(t, "indirect", 3) {
 				setAttr(&r, "indirect", "1")
@@ -457,9 +467,21 @@ func DrawRecords(t *rapid.T, format string, min, max int) []Record {
 				} else if ok3 {
 					setAttr(&r, "replace_name", nn)
 					setAttr(&r, "replace_version", goVersion(t, pickInt(t, "rmajor", 0, 1)))
-					if coin(t, "replace_all", 2) {
-						setAttr(&r, "replace_all", "1")
-					}
+				}
+				if ok3 && coin(t, "replace_all", 2) {
+					setAttr(&r, "replace_all", "1")
+				}
+				// one directive per left-hand side (the go command rejects conflicting ones)
+				lhs := r.Name + "@" + r.Version
+				if r.A("replace_all") != "" {
+					lhs = r.Name + "@"
+				}
+				if goLHS[lhs] {
+					delete(r.Attrs, "replace_name")
+					delete(r.Attrs, "replace_version")
+					delete(r.Attrs, "replace_all")
+				} else if ok3 {
+					goLHS[lhs] = true
 				}
 			}
 		case "cargo":
@@ -574,6 +596,9 @@ func DrawRecords(t *rapid.T, format string, min, max int) []Record {
 		}
 		recs = append(recs, r)
 	}
+	if format == "gomod" {
+		recs = drawGoReplaces(t, recs, goLHS, uniq)
+	}
 	if format == "gomod" && rapid.IntRange(0, 4).Draw(t, "godirective") > 0 {
 		g := Record{Name: "go", Version: "1." + strconv.Itoa(rapid.IntRange(12, 24).Draw(t, "gominor")), Attrs: map[string]string{"kind": "go"}}
 		if coin(t, "gopatch", 2) {
@@ -587,6 +612,139 @@ func DrawRecords(t *rapid.T, format string, min, max int) []Record {
 		// parent indices are only used by packagelock, no fix-up needed here
 	}
 	return dedupePairs(recs)
+}
+
+// goVersionLike draws a module version with the major version (and +incompatible mark) of v,
+// so that it is legal for the same module path.
+func goVersionLike(t *rapid.T, v string) string {
+	major := 0
+	if m, _, ok := strings.Cut(strings.TrimPrefix(v, "v"), "."); ok {
+		major, _ = strconv.Atoi(m)
+	}
+	if strings.HasSuffix(v, "+incompatible") {
+		return "v" + strconv.Itoa(major) + "." + num(t, "imin", 9) + "." + num(t, "ipat", 9) + "+incompatible"
+	}
+	return goVersion(t, major)
+}
+
+// drawGoReplaces adds replace directives of their own (records of kind "replace") to a go.mod
+// record set: combinations of directives for one required module (exact version and
+// version-less, in either order; several exact versions), directives for modules and versions
+// that are not required (no effect), replacements by a directory, by another version of the
+// same path, and by a module that is itself required. Left-hand sides stay distinct.
+func drawGoReplaces(t *rapid.T, recs []Record, lhs map[string]bool, uniq func(func() string) (string, bool)) []Record {
+	var reqs []int
+	for i, r := range recs {
+		if r.A("kind") == "" {
+			reqs = append(reqs, i)
+		}
+	}
+	var dirs []Record
+	add := func(oldPath, oldVersion, newPath, newVersion string) {
+		if newPath == "" || lhs[oldPath+"@"+oldVersion] {
+			return
+		}
+		lhs[oldPath+"@"+oldVersion] = true
+		dirs = append(dirs, Record{Name: oldPath, Version: oldVersion, Attrs: attrs("kind", "replace", "replace_name", newPath, "replace_version", newVersion)})
+	}
+	// rhs draws a replacement for the required module version (p, v)
+	rhs := func(p, v string) (string, string) {
+		switch pickInt(t, "rhs", 0, 0, 0, 1, 2, 3) {
+		case 1: // a directory
+			nn, ok := uniq(func() string { return goPath(t) + "/local" })
+			if !ok {
+				return "", ""
+			}
+			return pickS(t, "localdir", "./fork/", "../", "./") + safeWord(nn), ""
+		case 2: // another version of the same path (pinning)
+			return p, goVersionLike(t, v)
+		case 3: // a module that is itself required, at its required or at another version
+			if len(reqs) > 0 {
+				o := recs[reqs[rapid.IntRange(0, len(reqs)-1).Draw(t, "rhsreq")]]
+				if o.Name != p {
+					if coin(t, "rhsreq_other_version", 2) {
+						return o.Name, goVersionLike(t, o.Version)
+					}
+					return o.Name, o.Version
+				}
+			}
+		}
+		nn, ok := uniq(func() string { return goPath(t) + "/fork" })
+		if !ok {
+			return "", ""
+		}
+		return nn, goVersion(t, pickInt(t, "rmajor", 0, 1))
+	}
+	for s, n := 0, pickInt(t, "goreplaces", 0, 0, 0, 1, 1, 2, 3); s < n; s++ {
+		kind := pickInt(t, "goreplace_kind", 0, 0, 0, 1, 1, 2, 3)
+		if len(reqs) == 0 {
+			kind = 2
+		}
+		var p, v string
+		if len(reqs) > 0 {
+			r := recs[reqs[rapid.IntRange(0, len(reqs)-1).Draw(t, "target")]]
+			p, v = r.Name, r.Version
+		}
+		switch kind {
+		case 0: // exact version + version-less directive for the same module, in a drawn order
+			an, av := rhs(p, v)
+			bn, bv := rhs(p, v)
+			if coin(t, "wildcard_first", 2) {
+				add(p, "", bn, bv)
+				add(p, v, an, av)
+			} else {
+				add(p, v, an, av)
+				add(p, "", bn, bv)
+			}
+		case 1: // several exact versions of one path: the required ones and one that is not required
+			for _, i := range reqs {
+				if recs[i].Name == p && (recs[i].Version == v || coin(t, "other_required_version", 2)) {
+					nn, nv := rhs(p, recs[i].Version)
+					add(p, recs[i].Version, nn, nv)
+				}
+			}
+			if coin(t, "unrequired_version", 2) {
+				nn, nv := rhs(p, v)
+				add(p, goVersionLike(t, v), nn, nv)
+			}
+		case 2: // a module that is not required at all
+			q, ok := uniq(func() string { return goPath(t) })
+			if !ok {
+				continue
+			}
+			nn, nv := rhs(q, "v1.0.0")
+			if coin(t, "unrequired_exact", 2) {
+				add(q, goVersion(t, pickInt(t, "umajor", 0, 1)), nn, nv)
+			} else {
+				add(q, "", nn, nv)
+			}
+		case 3: // one version-less directive (covers every required version of the path)
+			nn, nv := rhs(p, v)
+			add(p, "", nn, nv)
+		}
+	}
+	// directives go to drawn positions among the records, keeping their mutual order (which is
+	// their order in the file unless the layout permutes the records)
+	if len(dirs) == 0 {
+		return recs
+	}
+	pos := make([]int, len(dirs))
+	for k := range pos {
+		pos[k] = rapid.IntRange(0, len(recs)).Draw(t, "replacepos")
+	}
+	sort.Ints(pos)
+	out := make([]Record, 0, len(recs)+len(dirs))
+	k := 0
+	for i := 0; i <= len(recs); i++ {
+		for k < len(dirs) && pos[k] == i {
+			out = append(out, dirs[k])
+			k++
+		}
+		if i < len(recs) {
+			out = append(out, recs[i])
+		}
+	}
+	return out
 }
 
 func pickInt(t *rapid.T, label string, v ...int) int {
